@@ -916,11 +916,12 @@ void PLSDiscriminantAnalysisStatistics(matrix *my_true,
   NewDVector(&y_score, my_true->row);
 
   for(lv = 0; lv < nlv; lv++){
+    /* a curve over n objects has n+1 points: the origin and one per object */
     if(roc != NULL)
-      AddTensorMatrix(roc, my_true->row, my_true->col*2);
+      AddTensorMatrix(roc, my_true->row+1, my_true->col*2);
 
     if(precision_recall != NULL)
-      AddTensorMatrix(precision_recall, my_true->row, my_true->col*2);
+      AddTensorMatrix(precision_recall, my_true->row+1, my_true->col*2);
 
 
     initDVector(&auc_row);
@@ -940,15 +941,18 @@ void PLSDiscriminantAnalysisStatistics(matrix *my_true,
       DVectorAppend(auc_row, auc);
       DVectorAppend(ap_row, ap);
 
-      for(i = 0; i < my_true->row; i++){
-        if(roc != NULL){
-          roc->m[lv]->data[i][k] = roc_->data[i][0];
-          roc->m[lv]->data[i][k+1] = roc_->data[i][1];
+      /* missing truths are skipped by ROC/PrecisionRecall: the curves may be shorter */
+      if(roc != NULL){
+        for(i = 0; i < roc_->row && i < roc->m[roc->order-1]->row; i++){
+          roc->m[roc->order-1]->data[i][k] = roc_->data[i][0];
+          roc->m[roc->order-1]->data[i][k+1] = roc_->data[i][1];
         }
+      }
 
-        if(precision_recall != NULL){
-          precision_recall->m[lv]->data[i][k] = pr_->data[i][0];
-          precision_recall->m[lv]->data[i][k+1] = pr_->data[i][1];
+      if(precision_recall != NULL){
+        for(i = 0; i < pr_->row && i < precision_recall->m[precision_recall->order-1]->row; i++){
+          precision_recall->m[precision_recall->order-1]->data[i][k] = pr_->data[i][0];
+          precision_recall->m[precision_recall->order-1]->data[i][k+1] = pr_->data[i][1];
         }
       }
       k+=2;
